@@ -84,7 +84,23 @@ func (ex *Exec) precond(c *CallCtx, st *State, name string, cond *term.Term) {
 	ex.VCs = append(ex.VCs, &VC{Label: "stub-precondition:" + name, Guard: st.G, Cond: cond, Kind: "precond", Site: ex.posOf(c.Site)})
 }
 
-func timeV(ns, days *term.Term, loc Value) *StructV { return &StructV{F: []Value{ns, days, loc}} }
+// timeV builds a Time without civil-date provenance.
+func timeV(ns, days *term.Term, loc Value) *StructV {
+	return &StructV{F: []Value{ns, days, loc, &StructV{F: []Value{term.False(), c64(0), c64(0), c64(0)}}}}
+}
+
+// timeVCivil builds a Time that is known to show civil date (y, m, d) in its own location whenever ok holds.
+func timeVCivil(ns, days *term.Term, loc Value, ok, y, m, d *term.Term) *StructV {
+	return &StructV{F: []Value{ns, days, loc, &StructV{F: []Value{ok, y, m, d}}}}
+}
+
+func provenance(t *StructV) (ok, y, m, d *term.Term) {
+	if len(t.F) < 4 {
+		return term.False(), c64(0), c64(0), c64(0)
+	}
+	p := t.F[3].(*StructV)
+	return p.F[0].(*term.Term), p.F[1].(*term.Term), p.F[2].(*term.Term), p.F[3].(*term.Term)
+}
 
 func (ex *Exec) locOffset(st *State, loc Value) *term.Term {
 	p, ok := loc.(PtrV)
@@ -172,22 +188,39 @@ func init() {
 			nl := c64(-(1 << 40))
 			ex.precond(c, c.St, "time.Date-clock-range", term.And(term.Sle(a(3), lim), term.Sge(a(3), nl), term.Sle(a(4), lim), term.Sge(a(4), nl), term.Sle(a(5), lim), term.Sge(a(5), nl), term.Sle(a(6), c64(1<<60)), term.Sge(a(6), c64(-(1<<60)))))
 		}
+		valid := validYMD(a(0), a(1), a(2))
 		if allZero && off.IsConst() && off.Val == 0 {
-			return c.ret(timeV(c64(0), ord, loc))
+			return c.ret(timeVCivil(c64(0), ord, loc, valid, a(0), a(1), a(2)))
 		}
 		inst := term.Sub(tod, term.Mul(off, c64(1000000000)))
 		q, r := floorDivC(inst, nsPerDay)
-		return c.ret(timeV(r, term.Add(ord, q), loc))
+		clockOK := term.And(term.Sge(tod, c64(0)), term.Slt(tod, c64(nsPerDay)))
+		return c.ret(timeVCivil(r, term.Add(ord, q), loc, term.And(valid, clockOK), a(0), a(1), a(2)))
 	}
 	Stubs["(time.Time).Date"] = func(ex *Exec, c *CallCtx) []*callResult {
 		t := c.Args[0].(*StructV)
+		pok, py, pm, pd := provenance(t)
+		if ex.decideCond(c.St, pok) == 1 {
+			return c.ret(TupleV{py, pm, pd})
+		}
 		ld, _ := ex.localDays(c.St, t)
 		y, m, d := ex.freshYMD(c.St, ld)
-		return c.ret(TupleV{y, m, d})
+		if pok.IsFalse() {
+			return c.ret(TupleV{y, m, d})
+		}
+		return c.ret(TupleV{term.Ite(pok, py, y), term.Ite(pok, pm, m), term.Ite(pok, pd, d)})
 	}
 	Stubs["(time.Time).IsZero"] = func(ex *Exec, c *CallCtx) []*callResult {
 		t := c.Args[0].(*StructV)
-		return c.ret(term.And(term.Eq(t.F[0].(*term.Term), c64(0)), term.Eq(t.F[1].(*term.Term), c64(0))))
+		byOrd := term.And(term.Eq(t.F[0].(*term.Term), c64(0)), term.Eq(t.F[1].(*term.Term), c64(0)))
+		pok, py, pm, pd := provenance(t)
+		off := ex.locOffset(c.St, t.F[2])
+		if pok.IsFalse() || !(off.IsConst() && off.Val == 0) {
+			return c.ret(byOrd)
+		}
+		// a UTC time built from a valid civil date is the zero time iff that date is 0001-01-01 at midnight
+		byCivil := term.And(term.Eq(t.F[0].(*term.Term), c64(0)), term.Eq(py, c64(1)), term.Eq(pm, c64(1)), term.Eq(pd, c64(1)))
+		return c.ret(term.Ite(pok, byCivil, byOrd))
 	}
 	Stubs["(time.Time).Equal"] = func(ex *Exec, c *CallCtx) []*callResult {
 		t, u := c.Args[0].(*StructV), c.Args[1].(*StructV)
